@@ -95,6 +95,15 @@ R1 = {
         M("algo/Bytes.tla", "algo/Bytes_Q2L2_mut.cfg", expect_violation="BEOK"),
         M("algo/Bytes.tla", "algo/Bytes_Q2L3.cfg", tiers=T, workers=12), M("algo/Bytes.tla", "algo/Bytes_Q3L2.cfg", tiers=T, workers=12),
     ],
+    "C18": [
+        M("algo/Codec.tla", "algo/Codec_Q2N2der.cfg"), M("algo/Codec.tla", "algo/Codec_Q3N2.cfg"), M("algo/Codec.tla", "algo/Codec_Q3N3.cfg", workers=8),
+        M("algo/Codec.tla", "algo/Codec_Q3N2_mut_rlp.cfg", expect_violation="RlpDecSound"),
+        M("algo/Codec.tla", "algo/Codec_Q3N2_mut_der.cfg", expect_violation="DerRoundTrip"),
+        M("algo/Codec.tla", "algo/Codec_Q3N3_reach_der.cfg", expect_violation="ReachLongDer"),
+        M("algo/Codec.tla", "algo/Codec_Q3N2_reach_rlp.cfg", expect_violation="ReachLongRlp"),
+        M("algo/Codec.tla", "algo/Codec_Q3N3T2.cfg", tiers=T, workers=12), M("algo/Codec.tla", "algo/Codec_Q4N2.cfg", tiers=T, workers=12),
+        M("algo/Codec.tla", "algo/Codec_Q3N4.cfg", tiers=T, workers=12, timeout=3000), M("algo/Codec.tla", "algo/Codec_Q4N3.cfg", tiers=T, workers=12, timeout=3000),
+    ],
     "C09": [
         M("algo/Pow.tla", "algo/Pow_W4WIN2E2.cfg", workers=8), M("algo/Pow.tla", "algo/Pow_W4WIN4E2.cfg", workers=8),
         M("algo/Pow.tla", "algo/Pow_W2WIN2E3.cfg"), M("algo/Pow.tla", "algo/Pow_W4WIN2E1_2bases.cfg", workers=8),
@@ -137,6 +146,7 @@ PROPS["C11"]["custom"] = "check_c11"
 PROPS["C19"]["selftest_skip_ops"] = ["rmod"]   # a single modular draw is only range-constrained (any v < m is admissible)
 PROPS["C01"]["custom"] = "check_c01"
 PROPS["C02"]["paths"] = {"quick": 1, "thorough": 7}
+PROPS["C18"]["paths"] = {"module": "CodecTrace", "quick": 7, "thorough": 1}
 PROPS["C04"]["apalache"] = [dict(spec="apalache/WordLemmas64.tla", inv="Inv")]
 PROPS["C07"]["apalache"] = [dict(spec="apalache/ModLemmas256.tla", inv="Inv"),
                             dict(spec="apalache/ModLemmas256.tla", inv="AddNoPre", expect_error=True),
